@@ -215,7 +215,7 @@ extern void *mpt_identifier_set(MPT_STRUCT(identifier) *id, const char *name, in
 	}
 	/* local data sufficient */
 	addr = (id->_len > id->_max) ? id->_base : 0;
-	if (len) {
+	if (len && name) {
 		int post = id->_max - len;
 		dest = memcpy(id->_val, name, len);
 		if (post) {
